@@ -167,7 +167,9 @@ class Gen:
             if nd >= 1 and 1 <= shape[-1] <= 4:
                 ops += ['legendre']
         if dtype == 'int':
-            ops += ['powi', 'abs', 'sign', 'min', 'max', 'mod', 'floordiv', 'cast']
+            ops += ['powi', 'abs', 'sign', 'min', 'max', 'mod', 'floordiv', 'cast', 'normdim', 'searchsorted']
+            if 1 <= nd <= 3:
+                ops += ['ravelindex']
         if dtype == 'complex':
             ops += ['conj']
         ops += ['sum', 'product', 'get', 'get', 'choose', 'guard']
@@ -544,6 +546,20 @@ class Gen:
     def g_legendre(self, dtype, shape, depth):
         return self.emit('legendre', [self.gen('float', shape[:-1], depth, 'unary')], dict(degree=shape[-1] - 1), dtype, shape)
 
+    def g_ravelindex(self, dtype, shape, depth):
+        k = self.integers(0, len(shape))
+        na, nb = self.integers(1, 3), self.integers(1, 3)
+        a = self.gen('int', shape[:k], depth, 'mod')
+        b = self.gen('int', shape[k:], depth, 'mod')
+        return self.emit('ravelindex', [a, b], dict(na=na, nb=nb), dtype, shape)
+
+    def g_normdim(self, dtype, shape, depth):
+        return self.emit('normdim', [self.gen('int', shape, depth, 'mod')], dict(n=self.integers(1, 4)), dtype, shape)
+
+    def g_searchsorted(self, dtype, shape, depth):
+        table = sorted(self.choice(IVALS) for _ in range(self.integers(0, 4)))
+        return self.emit('searchsorted', [self.gen('int', shape, depth, 'add')], dict(table=table, side=self.choice(['left', 'right'])), dtype, shape)
+
     # loops
     def _loopname(self):
         used = {n for n, _ in self.active}
@@ -918,6 +934,14 @@ class Ref:
         if op == 'legendre':
             x = C(0)
             return numpy.moveaxis(numpy.polynomial.legendre.legval(x, numpy.eye(p['degree'] + 1)), 0, -1)
+        if op == 'ravelindex':
+            ia = numpy.mod(C(0), p['na']); ib = numpy.mod(C(1), p['nb'])
+            return ia[(...,) + (None,) * ib.ndim] * p['nb'] + ib
+        if op == 'normdim':
+            idx = numpy.mod(C(0), 2 * p['n']) - p['n']
+            return numpy.where(idx < 0, idx + p['n'], idx)
+        if op == 'searchsorted':
+            return numpy.searchsorted(numpy.array(p['table'], dtype=numpy.int64), C(0), side=p['side']).astype(numpy.int64)
         if op == 'loopsum':
             acc = numpy.zeros(shape, NPDT[dtype])
             for j in range(p['length']):
@@ -1040,6 +1064,13 @@ def build(prog):
         elif op == 'dot': r = ev.dot(C(0), C(1), p['axis'])
         elif op == 'polyval': r = ev.Polyval(C(0), C(1))
         elif op == 'legendre': r = ev.Legendre(C(0), p['degree'])
+        elif op == 'ravelindex':
+            r = ev.RavelIndex(ev.mod(C(0), ev.constant(p['na'])), ev.mod(C(1), ev.constant(p['nb'])), c(p['na']), c(p['nb']))
+        elif op == 'normdim':
+            idx = ev.subtract(ev.mod(C(0), ev.constant(2 * p['n'])), ev.constant(p['n']))
+            r = ev.NormDim(ev.prependaxes(c(p['n']), idx.shape), idx)
+        elif op == 'searchsorted':
+            r = ev.SearchSorted(C(0), array=ev.constant(numpy.array(p['table'], dtype=int)), side=p['side'], sorter=None)
         elif op == 'loopsum': r = ev.loop_sum(C(0), ev.loop_index(p['loop'], p['length']))
         elif op == 'loopcat': r = ev.loop_concatenate(C(0), ev.loop_index(p['loop'], p['length']))
         else: raise NotImplementedError(op)
